@@ -185,6 +185,9 @@ pub(crate) const FUNC_TABLE: FuncTable = FuncTable {
 
 fn func_random(ctx: &EvalContext, args: &[Expr]) -> Result<i64, ExprError> {
     let max = args[0].eval(ctx)?;
+    if max <= 1 {
+        return Err(ExprErrorKind::EmptyRandomRange(max).into());
+    }
     Ok(ctx.random(1..max))
 }
 
@@ -198,7 +201,7 @@ fn func_ite(ctx: &EvalContext, args: &[Expr]) -> Result<i64, ExprError> {
 }
 
 fn func_sign_ext(_ctx: &EvalContext, _args: &[Expr]) -> Result<i64, ExprError> {
-    todo!("signExt")
+    Err(ExprErrorKind::NotImplemented("signExt").into())
 }
 
 impl Expr {
@@ -206,9 +209,9 @@ impl Expr {
         match self {
             Self::Number(n) => Ok(*n),
             Self::Variable(name) => {
-                let value = ctx
-                    .get(name)
-                    .expect("Variable not found. This should have been found at parse time");
+                let Some(value) = ctx.get(name) else {
+                    return Err(ExprErrorKind::UnknownVariable(name.clone()).into());
+                };
                 if let crate::OutputValue::Value(n) = value {
                     Ok(n)
                 } else {
